@@ -749,6 +749,66 @@ fn one_case(ctx: &mut Ctx, idx: u64, r: &mut Rng) {
 	}
 }
 
+/// Tweened volumes, frame by frame. One DC sound on a sub-track with one send route; the volume of the sub-track, of the route,
+/// of the send track or of the main track is moved with a linear tween while the device asks for callbacks of arbitrary sizes
+/// (so chunks of every length up to the internal buffer occur). A volume is advanced once per chunk by the chunk's duration and
+/// interpolated over the chunk's frames - frame i of an n-frame chunk hears previous + (current - previous) x (i + 1) / n, in
+/// decibels - whichever track it belongs to (a send route's volume applies its end-of-chunk value to the whole chunk); every
+/// output frame is compared with that.
+fn ramp_case(r: &mut Rng) -> Result<u64, String> {
+	let sr = 8000u32;
+	let ibs = *r.pick(&[4usize, 16, 64]);
+	let mut rig = Rig::simple(sr, ibs);
+	let mut send = rig.mgr.add_send_track(SendTrackBuilder::new()).map_err(|_| "send")?;
+	let mut t = rig.mgr.add_sub_track(TrackBuilder::new().with_send(&send, Decibels(-6.0))).map_err(|_| "t")?;
+	let _s = t.play(crate::probes::dc_sound(sr, 64, 0.25).loop_region(..)).map_err(|_| "play")?;
+	rig.callback(ibs * 2);
+	// dB values of [track, route, send, main]
+	let mut vol = [0.0f64, -6.0, 0.0, 0.0];
+	let which = r.below(4) as usize;
+	let names = ["the sub-track's volume", "the send route's volume", "the send track's volume", "the main track's volume"];
+	let target = r.f64_in(-30.0, 0.0) as f32;
+	let dur = Duration::from_secs_f64(r.f64_in(0.5, 6.0) * ibs as f64 / sr as f64);
+	let tw = Tween { duration: dur, ..Default::default() };
+	match which {
+		0 => t.set_volume(Decibels(target), tw),
+		1 => t.set_send(send.id(), Decibels(target), tw).map_err(|_| "set_send")?,
+		2 => send.set_volume(Decibels(target), tw),
+		_ => rig.mgr.main_track().set_volume(Decibels(target), tw),
+	}
+	let (start, d) = (vol[which], dur.as_secs_f64());
+	let mut time = 0.0f64;
+	let mut cur = start;
+	let mut frames = 0u64;
+	let mut sizes = vec![];
+	for _ in 0..r.usize_in(3, 10) {
+		let any = r.usize_in(1, ibs * 3);
+		let n_cb = *r.pick(&[1usize, ibs - 1, ibs + 1, ibs * 2 + 3, any]);
+		sizes.push(n_cb);
+		let out = rig.callback(n_cb).to_vec();
+		let mut done = 0;
+		while done < n_cb {
+			let n = ibs.min(n_cb - done);
+			let prev = cur;
+			time += n as f64 / sr as f64;
+			cur = if time >= d { target as f64 } else { start + (target as f64 - start) * (time / d) };
+			for i in 0..n {
+				// (a send route's volume is not interpolated: the whole chunk is sent at the value reached at the chunk's end)
+				vol[which] = if which == 1 { cur as f32 as f64 } else { ((prev + (cur - prev) * ((i + 1) as f64 / n as f64)) as f32) as f64 };
+				let amp = |db: f64| 10f64.powf(db / 20.0);
+				let want = 0.25 * amp(vol[0]) * amp(vol[3]) * (1.0 + amp(vol[1]) * amp(vol[2]));
+				let got = out[(done + i) * 2] as f64;
+				if (got - want).abs() > 3e-5 * want {
+					return Err(format!("{} moved from {} dB to {} dB over {:?} (internal buffer {}, callbacks {:?}): frame {} of the last callback (frame {} of a chunk of {}) is {} instead of {} - the volume is interpolated over each chunk's own frames", names[which], start, target, dur, ibs, sizes, done + i, i, n, got, want));
+				}
+				frames += 1;
+			}
+			done += n;
+		}
+	}
+	Ok(frames)
+}
+
 pub fn run(ctx: &mut Ctx) {
 	let n = ctx.t(300_000u64, 20_000_000u64);
 	for i in 0..n {
@@ -764,7 +824,31 @@ pub fn run(ctx: &mut Ctx) {
 		one_case(ctx, i, &mut r);
 		crate::monitors::clear_current();
 	}
-	let _ = J::Null;
+	// tweened volumes, frame by frame
+	let nr = ctx.t(4_000u64, 400_000u64);
+	let mut ramp_frames = 0u64;
+	for i in 0..nr {
+		if !ctx.owns("ramp", i) {
+			continue;
+		}
+		if !ctx.replaying() && !ctx.time_left(0.98) {
+			break;
+		}
+		let mut r = Rng::for_case(ctx.seed, 202, i);
+		ctx.eval();
+		crate::monitors::set_current(ctx, "ramp", i, "volume ramp", false);
+		let res = super::guarded(|| ramp_case(&mut r));
+		crate::monitors::clear_current();
+		match res {
+			Ok(Ok(f)) => {
+				ramp_frames += f;
+				ctx.distinct_key(0xC02_0002_0000 | (i % 16));
+			}
+			Ok(Err(e)) => ctx.violation("ramp", i, &e, J::Null),
+			Err(p) => ctx.violation("ramp", i, &format!("panic: {}", p.first().map(|p| p.sig()).unwrap_or_default()), J::Null),
+		}
+	}
+	ctx.count("volume_ramp_frames_compared", ramp_frames);
 }
 
 pub fn confirm(_key: &str) -> Option<Option<String>> {
